@@ -44,6 +44,10 @@ SegIdxText(seg) == SubSeq(seg, MinOf({i \in DOMAIN seg : seg[i] = 91}) + 1, Len(
 WellFormedSeg(seg) == IF IsIndexed(seg) THEN PlainName(SegName(seg)) /\ AllDigits(SegIdxText(seg))
                       ELSE PlainName(seg)
 WellFormedPath(key) == \A i \in DOMAIN SplitOn(key, 46) : WellFormedSeg(SplitOn(key, 46)[i])
+(* a key whose every segment is well formed or EMPTY (`a.`, `.a`, `a..b`): the empty name is an  *)
+(* ordinary member name, so the descent still says what the key addresses                        *)
+CheckablePath(key) == \A i \in DOMAIN SplitOn(key, 46) :
+                         SplitOn(key, 46)[i] = <<>> \/ WellFormedSeg(SplitOn(key, 46)[i])
 
 (* small decimal text -> Nat (indices in checked universes are < 10^4) *)
 RECURSIVE DigVal(_)
